@@ -248,6 +248,19 @@ def wiring(ck):
                     params = c.params(p)
                     from ..callgraph import bind_args
                     binding, _ = bind_args(params, site.node)
+                    def _through_locals(e0, f0=m):
+                        # a plain local bound once in the method (an attribute chain hoisted out of the call) stands for what it was bound to
+                        for _ in range(3):
+                            if not isinstance(e0, ast.Name):
+                                break
+                            vals = [n0.value for n0 in ast.walk(f0.node) if isinstance(n0, ast.Assign) and len(n0.targets) == 1
+                                    and isinstance(n0.targets[0], ast.Name) and n0.targets[0].id == e0.id]
+                            stores = sum(1 for n0 in ast.walk(f0.node) if isinstance(n0, ast.Name) and n0.id == e0.id and isinstance(n0.ctx, ast.Store))
+                            if len(vals) != 1 or stores != 1:
+                                break
+                            e0 = vals[0]
+                        return e0
+                    binding = {k0: _through_locals(v0) for k0, v0 in binding.items()}
                     g = binding.get("sequenceGenerator")
                     if g is None:
                         raise AnalysisError(f"{site.where}: sequenceGenerator argument of {c.fn.name} not bound")
@@ -259,6 +272,10 @@ def wiring(ck):
                              f"{c.fn.name} uses the {want}", found=ast.unparse(g), required=f"self.{want}")
                     # every self.args.X argument must be the like-named parameter
                     for pname, a in binding.items():
+                        if isinstance(a, ast.Attribute) and isinstance(a.value, ast.Name):
+                            base = _through_locals(a.value)
+                            if base is not a.value:
+                                a = ast.Attribute(value=base, attr=a.attr, ctx=ast.Load())
                         if isinstance(a, ast.Attribute) and isinstance(a.value, ast.Attribute) and a.value.attr == "args":
                             mine = _overlap(a.attr, pname)
                             best = max(_overlap(a.attr, q.name) for q in params)
